@@ -194,7 +194,7 @@ int radtcpget(int s, int timeout, uint8_t **buf) {
     len = get_checked_rad_length(init_buf);
     if (len <= 0) {
         debug(DBG_ERR, "radtcpget: invalid message length (%d)! closing connection!", -len);
-        return len;
+        return len ? len : -1; /* 0 would read as a timeout */
     }
 
     *buf = malloc(len);
